@@ -16,6 +16,7 @@ import (
 	mrand "math/rand"
 	"os"
 	"reflect"
+	"runtime"
 	"sort"
 	"sync"
 	"time"
@@ -54,6 +55,9 @@ type Hooks struct {
 	// Blocked is called by a task that cannot take a lock (or waits for a
 	// running sync.Once): the scheduler must let somebody else run.
 	Blocked func()
+	// Progress is told that a task got past a blocking point (lock taken, value
+	// received ...): the scheduler's deadlock detection starts counting afresh.
+	Progress func()
 }
 
 // H is the installed simulation, nil when none is running.
@@ -283,13 +287,261 @@ var _ io.ReadWriteCloser = (*File)(nil)
 
 // ---------------------------------------------------------------- R6
 
-// Go replaces a `go f()` statement in the instrumented package.
+// Go replaces a `go f()` statement in the instrumented package.  Under the
+// simulator the new goroutine becomes one more cooperative task: it is a real
+// goroutine, but it runs only when the scheduler hands it the turn.
 func Go(f func()) {
 	if h := H; h != nil && h.Go != nil {
 		h.Go(f)
 		return
 	}
 	go f()
+}
+
+// coop reports whether goroutines, locks, wait groups and channels of the
+// instrumented package are under the cooperative scheduler.
+func coop() *Hooks {
+	if h := H; h != nil && h.Blocked != nil {
+		return h
+	}
+	return nil
+}
+
+func progress(h *Hooks) {
+	if h.Progress != nil {
+		h.Progress()
+	}
+}
+
+// ---- sync.WaitGroup: Add / Done / Wait are rewritten to these; under the
+// simulator the counter lives in a side table and Wait polls it, handing the
+// turn to the scheduler while it is positive.
+
+var wgs = map[*sync.WaitGroup]int{}
+
+func WGAdd(w *sync.WaitGroup, n int) {
+	h := coop()
+	if h == nil {
+		w.Add(n)
+		return
+	}
+	wgs[w] += n
+	if wgs[w] < 0 {
+		panic("sync: negative WaitGroup counter")
+	}
+}
+
+func WGDone(w *sync.WaitGroup) { WGAdd(w, -1) }
+
+func WGWait(w *sync.WaitGroup) {
+	h := coop()
+	if h == nil {
+		w.Wait()
+		return
+	}
+	for wgs[w] > 0 {
+		h.Blocked()
+	}
+	progress(h)
+}
+
+// ---- channels made by the instrumented package (make(chan T, n) is wrapped
+// in RegChan) are modelled in a side table under the simulator: the real
+// channel is not used, so that a send and a receive that both poll can meet.
+// Channels that come from elsewhere are polled for real.
+
+type offer struct {
+	v     interface{}
+	taken bool
+}
+
+type chanState struct {
+	keep   interface{} // keeps the channel alive so that its address is not reused within a case
+	cap    int
+	q      []interface{}
+	offers []*offer
+	closed bool
+}
+
+var chans = map[uintptr]*chanState{}
+
+// RegChan wraps make(chan ...) in the instrumented package.
+func RegChan[C any](c C) C {
+	if coop() != nil {
+		v := reflect.ValueOf(c)
+		if v.Kind() == reflect.Chan && !v.IsNil() {
+			chans[v.Pointer()] = &chanState{keep: c, cap: v.Cap()}
+		}
+	}
+	return c
+}
+
+func chanOf(c interface{}) *chanState {
+	if len(chans) == 0 {
+		return nil
+	}
+	v := reflect.ValueOf(c)
+	if v.Kind() != reflect.Chan || v.IsNil() {
+		return nil
+	}
+	return chans[v.Pointer()]
+}
+
+// Send replaces the statement `ch <- v`.
+func Send[T any](ch chan<- T, v T) {
+	h := coop()
+	if h == nil {
+		ch <- v
+		return
+	}
+	st := chanOf(ch)
+	if st == nil {
+		if ch == nil {
+			for {
+				h.Blocked() // a send on a nil channel blocks forever
+			}
+		}
+		for {
+			select {
+			case ch <- v:
+				progress(h)
+				return
+			default:
+				h.Blocked()
+			}
+		}
+	}
+	if st.closed {
+		panic("send on closed channel")
+	}
+	if st.cap > 0 {
+		for len(st.q) >= st.cap {
+			h.Blocked()
+			if st.closed {
+				panic("send on closed channel")
+			}
+		}
+		st.q = append(st.q, v)
+		progress(h)
+		return
+	}
+	o := &offer{v: v}
+	st.offers = append(st.offers, o)
+	for !o.taken {
+		h.Blocked()
+		if st.closed && !o.taken {
+			panic("send on closed channel")
+		}
+	}
+	progress(h)
+}
+
+// Recv replaces the expression `<-ch`, Recv2 the form `v, ok := <-ch`.
+func Recv[T any](ch <-chan T) T {
+	v, _ := Recv2(ch)
+	return v
+}
+
+func Recv2[T any](ch <-chan T) (T, bool) {
+	h := coop()
+	if h == nil {
+		v, ok := <-ch
+		return v, ok
+	}
+	st := chanOf(ch)
+	var zero T
+	if st == nil {
+		if ch == nil {
+			for {
+				h.Blocked()
+			}
+		}
+		for {
+			select {
+			case v, ok := <-ch:
+				progress(h)
+				return v, ok
+			default:
+				h.Blocked()
+			}
+		}
+	}
+	for {
+		if len(st.q) > 0 {
+			v := st.q[0]
+			st.q = st.q[1:]
+			progress(h)
+			if v == nil {
+				return zero, true
+			}
+			return v.(T), true
+		}
+		if len(st.offers) > 0 {
+			o := st.offers[0]
+			st.offers = st.offers[1:]
+			o.taken = true
+			progress(h)
+			if o.v == nil {
+				return zero, true
+			}
+			return o.v.(T), true
+		}
+		if st.closed {
+			progress(h)
+			return zero, false
+		}
+		h.Blocked()
+	}
+}
+
+// RangeChan replaces `range ch`.
+func RangeChan[T any](ch <-chan T) iter.Seq[T] {
+	return func(yield func(T) bool) {
+		for {
+			v, ok := Recv2(ch)
+			if !ok || !yield(v) {
+				return
+			}
+		}
+	}
+}
+
+// Close replaces close(ch).
+func Close[C any](c C) {
+	if coop() != nil {
+		if st := chanOf(c); st != nil {
+			if st.closed {
+				panic("close of closed channel")
+			}
+			st.closed = true
+			return
+		}
+	}
+	reflect.ValueOf(c).Close()
+}
+
+// NumCPU / GOMAXPROCS / Gosched replace their runtime namesakes: a worker
+// count derived from the machine must not differ between a run and its replay.
+func NumCPU() int {
+	if H != nil {
+		return 4
+	}
+	return runtime.NumCPU()
+}
+
+func GOMAXPROCS(n int) int {
+	if H != nil {
+		return 4
+	}
+	return runtime.GOMAXPROCS(n)
+}
+
+func Gosched() {
+	if h := H; h != nil && h.Yield != nil {
+		h.Yield(-3)
+		return
+	}
+	runtime.Gosched()
 }
 
 // SimLock replaces X.Lock() / X.RLock(): under the simulator a contended lock
@@ -303,6 +555,7 @@ func SimLock(lock func(), try func() bool) {
 	for !try() {
 		h.Blocked()
 	}
+	progress(h)
 }
 
 type onceState struct{ running, done bool }
@@ -314,6 +567,8 @@ var onces = map[*sync.Once]*onceState{}
 func ResetSync() {
 	onces = map[*sync.Once]*onceState{}
 	pools = map[*sync.Pool][]interface{}{}
+	wgs = map[*sync.WaitGroup]int{}
+	chans = map[uintptr]*chanState{}
 }
 
 var pools = map[*sync.Pool][]interface{}{}
